@@ -601,7 +601,8 @@ class Interp:
         raise ContinueEx()
 
     def st_Global(self, s, fr):
-        raise Unsupported("global statement")
+        g = fr.locals.setdefault("__global_names__", set())
+        g.update(s.names)
 
     def st_Assert(self, s, fr):
         if not self.truth(self.eval(s.test, fr)):
@@ -802,6 +803,9 @@ class Interp:
     def store_name(self, name, v, fr):
         if fr.mangle and fr.func is None:
             name = self.mangle_name(name, fr)
+        if fr.func is not None and name in fr.locals.get("__global_names__", ()):
+            fr.globs[name] = v          # `global name` was declared in this function
+            return
         fr.locals[name] = v
 
     def load_name(self, name, fr):
@@ -809,7 +813,7 @@ class Interp:
             m = self.mangle_name(name, fr)
             if m in fr.locals:
                 return fr.locals[m]
-        if name in fr.locals:
+        if name in fr.locals and not (fr.func is not None and name in fr.locals.get("__global_names__", ())):
             return fr.locals[name]
         c = fr.closure
         while c is not None:
